@@ -33,7 +33,7 @@ def check(case):
     if not light:
         dag.disturb(lib)            # history: inner nodes serialised on their own, builders/slices derived and used
     minimal = case.get('minimal', False)    # 65 536-cell bags in the quick tier: one option set, bytes form, Cell entry point
-    for (idx, crc, cache) in ([(1, 1, 1)] if minimal else boccases.OPTSETS):
+    for (idx, crc, cache) in ([tuple(o) for o in case.get('optsets', [(1, 1, 1)])] if minimal else boccases.OPTSETS):
         tag = f'idx{idx}crc{crc}cache{cache}'
         ok, boc = call(root.to_boc, bool(idx), bool(crc), bool(cache))
         if not ok:
@@ -96,6 +96,9 @@ def check(case):
 
 def enum_boundary(tier):
     for name, spec in boccases.boundary_specs(tier):
+        if len(spec) > 60000 and name.startswith('payload='):      # multi-megabyte bags: two option sets, bytes form only
+            yield {'spec': spec, 'light': True, 'minimal': True, 'optsets': [[1, 1, 1], [1, 0, 0]], 'name': name + '/two-option-sets'}
+            continue
         yield {'spec': spec, 'light': True, 'name': name}
     if tier == 'quick':
         for n in (65535, 65536):       # the 2-byte / 3-byte reference-width boundary (thorough: full matrix, 65 535..65 537)
